@@ -93,6 +93,10 @@ example : (findKey (k% "LCC.Reverse")).map (fun e => e.checkNaN 2 (okReport 4 [f
 example : (findKey (k% "GeoCoords.CtorUTMN")).map (fun e => e.checkNaN 0 (okReport 17 [true, true, true, false, true, true, false, false, true, false, false, true, true, false, true, true, false]
     [false, false, false, false, false, false, false, true, false, false, true, false, false, true, false, false, false])) = some false := by
   decide +kernel
+/-- … and the report of the unchanged library (northing, hemisphere, zone and their alternates echo the arguments) is accepted -/
+example : (findKey (k% "GeoCoords.CtorUTMN")).map (fun e => e.checkNaN 0 (okReport 17 [true, true, true, false, true, true, false, false, true, false, false, true, true, false, true, true, false]
+    [false, false, false, true, false, false, true, true, false, true, true, false, false, true, false, false, true])) = some true := by
+  decide +kernel
 
 /--
 `throw_clean_sound`: a report accepted by `throwClean` is either a normal return, or the library's exception / an
